@@ -24,6 +24,72 @@ type freshness struct {
 	whyNot   map[ssa.Value]string
 	assumeOK map[*ssa.Parameter]bool // parameters assumed fresh for the current query (A3)
 	usedPrm  map[*ssa.Parameter]bool
+	inCW     map[ssa.Value]bool // containers/cells whose writes are being examined (cycle cut)
+	// bind: function-typed parameters bound to the function passed at the call
+	// being examined (copyRows(model.Clone)): the callee is re-evaluated for that call
+	bind      map[*ssa.Parameter]*ssa.Function
+	specDepth int
+}
+
+// funcOperand: the function a call argument denotes (a named function or a closure).
+func funcOperand(v ssa.Value) *ssa.Function {
+	switch x := v.(type) {
+	case *ssa.Function:
+		return x
+	case *ssa.MakeClosure:
+		fn, _ := x.Fn.(*ssa.Function)
+		return fn
+	case *ssa.ChangeType:
+		return funcOperand(x.X)
+	}
+	return nil
+}
+
+// specialisedFresh re-evaluates result idx of g for the call c, with g's
+// function-typed parameters bound to the functions passed at c.
+func (f *freshness) specialisedFresh(c *ssa.Call, g *ssa.Function, idx int) bool {
+	if f.specDepth >= 2 || g.Blocks == nil {
+		return false
+	}
+	args := c.Common().Args
+	off := 0
+	if c.Common().IsInvoke() {
+		off = 1
+	}
+	bind := map[*ssa.Parameter]*ssa.Function{}
+	for i, a := range args {
+		if i+off >= len(g.Params) {
+			break
+		}
+		if _, isSig := g.Params[i+off].Type().Underlying().(*types.Signature); !isSig {
+			continue
+		}
+		if fn := funcOperand(a); fn != nil {
+			bind[g.Params[i+off]] = fn
+		}
+	}
+	if len(bind) == 0 {
+		return false
+	}
+	savedMemo, savedWhy, savedBind, savedCW := f.memo, f.whyNot, f.bind, f.inCW
+	f.memo, f.whyNot, f.bind, f.inCW = map[ssa.Value]int{}, map[ssa.Value]string{}, bind, nil
+	f.specDepth++
+	ok := true
+	for _, b := range g.Blocks {
+		if isRecoverBlock(b) {
+			continue
+		}
+		for _, ins := range b.Instrs {
+			if ret, isRet := ins.(*ssa.Return); isRet && idx < len(ret.Results) {
+				if !f.fresh(retValue(ret, idx), 0) {
+					ok = false
+				}
+			}
+		}
+	}
+	f.specDepth--
+	f.memo, f.whyNot, f.bind, f.inCW = savedMemo, savedWhy, savedBind, savedCW
+	return ok
 }
 
 // axiomFresh: functions whose result is a new deep copy / new object by
@@ -133,6 +199,21 @@ func (f *freshness) reason(v ssa.Value) string {
 
 func (f *freshness) calleeFresh(c *ssa.Call, idx int) (bool, string) {
 	cc := c.Common()
+	if prm, ok := cc.Value.(*ssa.Parameter); ok && !cc.IsInvoke() && f.bind != nil {
+		if g := f.bind[prm]; g != nil {
+			name := g.String()
+			if o := g.Origin(); o != nil {
+				name = o.String()
+			}
+			if axiomFresh[name] {
+				return true, ""
+			}
+			if rs := f.results[g]; f.p.inRepo(g) && g.Blocks != nil && idx < len(rs) && rs[idx] {
+				return true, ""
+			}
+			return false, "result of " + funcName(g) + " (passed as " + prm.Name() + ") is not always a fresh copy"
+		}
+	}
 	if !cc.IsInvoke() {
 		if sc := cc.StaticCallee(); sc != nil {
 			name := sc.String()
@@ -161,6 +242,9 @@ func (f *freshness) calleeFresh(c *ssa.Call, idx int) (bool, string) {
 			return false, "result of external " + g.String()
 		}
 		rs := f.results[g]
+		if (idx >= len(rs) || !rs[idx]) && f.specialisedFresh(c, g, idx) {
+			continue
+		}
 		if idx >= len(rs) || !rs[idx] {
 			return false, "result #" + fmt.Sprint(idx) + " of " + funcName(g) + " is not always a fresh copy"
 		}
@@ -377,6 +461,14 @@ func (f *freshness) containerWritesFresh(c ssa.Value, depth int) bool {
 	if refs == nil {
 		return true
 	}
+	if f.inCW == nil {
+		f.inCW = map[ssa.Value]bool{}
+	}
+	if f.inCW[c] {
+		return true // already being examined higher up: a load stored back into its own cell
+	}
+	f.inCW[c] = true
+	defer delete(f.inCW, c)
 	for _, ref := range *refs {
 		switch u := ref.(type) {
 		case *ssa.MapUpdate:
@@ -429,6 +521,14 @@ func (f *freshness) cellContainerWritesFresh(cell ssa.Value, depth int) bool {
 	if refs == nil {
 		return true
 	}
+	if f.inCW == nil {
+		f.inCW = map[ssa.Value]bool{}
+	}
+	if f.inCW[cell] {
+		return true
+	}
+	f.inCW[cell] = true
+	defer delete(f.inCW, cell)
 	for _, ref := range *refs {
 		switch u := ref.(type) {
 		case *ssa.UnOp:
@@ -1356,6 +1456,9 @@ func ruleA4(p *Program, r *Reporter) {
 				}
 				n++
 				ok2 := funcName(fn) == "(*server.OvsdbServer).Transact"
+				if body, via := serverTransactBody(p); via != nil && body == fn {
+					ok2 = true // the private helper holding the body of Transact (T-SCAN and L4 look at it)
+				}
 				r.Ob(id, funcName(fn), "calls Database.Commit", ins.Pos(), ok2, true,
 					ifs(ok2, "the only commit point of the library", funcName(fn)+" commits outside OvsdbServer.Transact (no error scan, no transaction lock)"))
 			}
@@ -1502,7 +1605,7 @@ func ruleA5(p *Program, r *Reporter) {
 
 func ruleTSCAN(p *Program, r *Reporter) {
 	const id = "T-SCAN"
-	fn := p.Fn("server", "OvsdbServer", "Transact")
+	fn, _ := serverTransactBody(p)
 	errFld := p.Field("ovsdb", "OperationResult", "Error")
 	if fn == nil || errFld == nil {
 		r.Anchor(id, "server.(*OvsdbServer).Transact / ovsdb.OperationResult.Error")
